@@ -225,6 +225,28 @@ class CustomStrikethrough(gfm_elements.Strikethrough):
         return "strikethrough" if snake_case else "Strikethrough"
 
 
+class CustomFootnoteDef(footnote.FootnoteDef):
+    """
+    Fixed FootnoteDef for a tab after the colon (`[^a]:<TAB>text`).
+
+    Marko keeps the matched first-line prefix literally (tab included) and later matches it
+    against tab-expanded text, where it never matches: no element consumes the line and the
+    parser loops forever. Any run of blanks after the colon is accepted instead.
+    """
+
+    def __init__(self, match: re.Match[str]) -> None:
+        super().__init__(match)
+        label_part = re.match(r" {,3}\[\^[^\]]+\]:", match.group())
+        if label_part:
+            self._prefix: str = re.escape(label_part.group()) + r"[^\n\S]*"
+
+    @override
+    @classmethod
+    def get_type(cls, snake_case: bool = False) -> str:
+        # Ensure renderer dispatch uses "footnote_def" not "custom_footnote_def".
+        return "footnote_def" if snake_case else "FootnoteDef"
+
+
 class CustomFencedCode(block.FencedCode):
     """
     Extended FencedCode that preserves the fence character and length.
@@ -989,6 +1011,8 @@ def flowmark_markdown(
             # Add GFM footnote support.
             footnote_ext = footnote.make_extension()
             for e in footnote_ext.elements:
+                if e is footnote.FootnoteDef:
+                    e = CustomFootnoteDef
                 assert (
                     e not in custom_parser.block_elements and e not in custom_parser.inline_elements
                 )
